@@ -127,7 +127,11 @@ func c06Judge(p ssoP) c06Verdict {
 // then p is sent - nothing may be accepted for SP A any more.
 func c06History(p ssoP, mode string) c06Verdict {
 	w, req, t := ssoBuild(p)
-	_, first, _ := ssoBuild(ssoP{IssuerCfg: p.IssuerCfg, SSOEp: p.SSOEp, Transport: p.Transport, Host: p.Host})
+	fp := ssoP{IssuerCfg: p.IssuerCfg, SSOEp: p.SSOEp, MetaEp: p.MetaEp, Transport: p.Transport, Host: p.Host}
+	if mode == "primed-other-host" {
+		fp.Host = ssoOtherHost // the earlier request reached the same provider under another host name
+	}
+	_, first, _ := ssoBuild(fp)
 	o1 := ssoRun(w, first)
 	v := c06Verdict{}
 	if !o1.Accepted {
@@ -176,7 +180,7 @@ func init() { Registry["C06"] = runC06 }
 func runC06(ctx Ctx) int {
 	world.PinClock()
 	run := ev.NewRun("C06")
-	run.Rule = "full product of 96 IdP configurations (issuer x SSO endpoint x transport x storage lookup mode exact / case-insensitive / trailing-slash-tolerant) x every assignment of 13 message-validity dimensions with at most k deviations from the conformant default (k<=2 quick, k<=3 thorough); plus event histories on one provider for every k<=1 shape x config: (valid request accepted) ; p and (valid request accepted) ; SP unregistered ; p; one execution = fresh provider + one real SSO request, clock pinned; oracle = necessary conditions of acceptance evaluated on generator ground truth"
+	run.Rule = "full product of 96 IdP configurations (issuer x SSO endpoint x transport x storage lookup mode exact / case-insensitive / trailing-slash-tolerant) x every assignment of 13 message-validity dimensions with at most k deviations from the conformant default (k<=2 quick, k<=3 thorough); plus event histories on one provider for every k<=1 shape x config: (valid request accepted) ; p and (valid request accepted) ; SP unregistered ; p, and two-host histories (valid request under another host name) ; p for metadata endpoint default / fixed URL x Destination advertised here / advertised to the other host / absent; one execution = fresh provider + one real SSO request, clock pinned; oracle = necessary conditions of acceptance evaluated on generator ground truth"
 	run.Assume = []string{"ambiguous inputs (trailing bytes after a DEFLATE stream, raw XML on the Redirect binding, base64 with embedded newlines) are not in the alphabet: the statement does not say which way they must go"}
 	if ctx.Replay != "" {
 		var rp c06Replay
@@ -242,9 +246,32 @@ func runC06(ctx Ctx) int {
 		})
 		return true
 	})
+	// two-host histories: (valid request under another host name) ; p — for every config x metadata endpoint
+	// {default, fixed URL} x Destination {advertised here, advertised to the other host, absent} x k<=1 other dims
+	nSingle := len(hist)
+	c06Cfg.EnumFull(func(cv []int) bool {
+		cp := ssoFromVec(c06Cfg, cv)
+		for _, me := range []string{"", "external"} {
+			for _, dest := range []string{"", "other-host", "absent"} {
+				p := ssoP{IssuerCfg: cp.IssuerCfg, SSOEp: cp.SSOEp, Transport: cp.Transport, StoreLookup: cp.StoreLookup, MetaEp: me, Dest: dest}
+				l := append(c06Cfg.Labels(cv), "two-hosts")
+				if me != "" {
+					l = append(l, "MetaEp="+me)
+				}
+				if dest != "" {
+					l = append(l, "Dest="+dest)
+				}
+				hist = append(hist, item{p, l})
+			}
+		}
+		return true
+	})
 	_, complete2 := parallel(2*len(hist), deadline, func(i int) {
 		it := hist[i/2]
 		mode := []string{"primed", "unregistered"}[i%2]
+		if i/2 >= nSingle {
+			mode = []string{"primed-other-host", "primed"}[i%2]
+		}
 		v := c06History(it.p, mode)
 		run.Evaluations.Add(1)
 		run.Transitions.Add(2)
